@@ -577,7 +577,7 @@ def strat_model():
             "iso": {"units": u, "adsorbate": at["adsorbate"], "T_K": at["T_K"],
                     "T": at["T_K"] if u["temperature_unit"] == "K" else at["T_K"] - 273.15, "material": mat},
             "req": req, "model": model, "K": K1, "n_m": nm, "q": qs},
-        S.units(), S.ads_T(), S.material(), _req(), st.sampled_from(["Langmuir", "Henry", "Toth"]),
+        S.units(), S.ads_T(), S.material(), _req(), st.sampled_from(["Langmuir", "Henry", "Toth", "Virial", "Virial"]),
         st.floats(0.01, 100), st.floats(0.1, 50), st.lists(st.floats(0.01, 1.0), min_size=1, max_size=4))
 
 
@@ -590,10 +590,14 @@ def check_model(desc, ctx):
         model.params = {"K": desc["K"]}
     elif desc["model"] == "Langmuir":
         model.params = {"K": desc["K"], "n_m": desc["n_m"]}
+    elif desc["model"] == "Virial":
+        # a model that calculates pressure from loading (the accessors take the other internal path); monotone
+        sc = 1.0 / (10.0 * desc["K"])  # mild non-linearity over the whole range, so that the numerical inverse converges
+        model.params = {"K": desc["K"], "A": 0.5 * sc, "B": 0.1 * sc ** 2, "C": 0.02 * sc ** 3}
     else:
         model.params = {"K": desc["K"], "n_m": desc["n_m"], "t": 0.7}
     model.pressure_range = (0.0, 10.0)
-    model.loading_range = (0.0, float(model.loading(10.0)))
+    model.loading_range = (0.0, float(np.ravel(model.loading(10.0))[0]))
     iso = pygaps.ModelIsotherm(model=model, material=K.build_material(d["material"]), adsorbate=d["adsorbate"],
                                temperature=d["T"], **d["units"])
     prep, lrep, mrep = _t(desc["req"]["prep"]), _t(desc["req"]["lrep"]), _t(desc["req"]["mrep"])
@@ -645,13 +649,20 @@ def check_model(desc, ctx):
                             f"!= bare model at the stored-unit loadings {bp.tolist()}", tag="model_input_loading")
     # whole-curve accessors: pressure() grid and loading() on it
     gp = np.asarray(iso.pressure(points=7, **_kw_p(prep)), dtype=float)
-    exp_gp = np.array([ru.conv_pressure(v, sp, tp, fluid, T) for v in np.linspace(0.0, 10.0, 7)])
+    if model.calculates == "pressure":
+        # the grid of such a model is laid over its loading range
+        grid_l = np.linspace(model.loading_range[0], model.loading_range[1], 7)
+        with np.errstate(all="ignore"):
+            grid_p = np.asarray(model.pressure(grid_l), dtype=float)
+    else:
+        grid_p = np.linspace(0.0, 10.0, 7)
+        grid_l = np.asarray(model.loading(grid_p), dtype=float)
+    exp_gp = np.array([ru.conv_pressure(v, sp, tp, fluid, T) for v in grid_p])
     if not allclose(gp, exp_gp, rel=ru.tol_for(sp, tp), abs_=1e-300):
         raise Violation(f"ModelIsotherm.pressure(points=7, {_kw_p(prep)}) = {gp.tolist()} != {exp_gp.tolist()}",
                         tag="model_pressure_value")
     gl = np.asarray(iso.loading(points=7, **_kw_l(lrep), **_kw_m(mrep)), dtype=float)
-    exp_gl = np.array([ru.conv_full_loading(v, sl, sm, tl, tm, fluid, T, dens, mm)
-                       for v in np.asarray(model.loading(np.linspace(0.0, 10.0, 7)), dtype=float)])
+    exp_gl = np.array([ru.conv_full_loading(v, sl, sm, tl, tm, fluid, T, dens, mm) for v in grid_l])
     if not allclose(gl, exp_gl, rel=ru.tol_for(sl, tl, sm, tm), abs_=1e-300):
         raise Violation(f"ModelIsotherm.loading(points=7, {_kw_l(lrep)}, {_kw_m(mrep)}) = {gl.tolist()} != {exp_gl.tolist()}",
                         tag="model_loading_value")
